@@ -440,6 +440,47 @@ def rule_policy(ctx):
                 r.ok(key, C.loc(u, n), "explicit overwrite")
             else:
                 r.violation(key, C.loc(u, n), "unguarded store in update_from_tree", guards=tests)
+    # (sensitivity map) what was searched is what the next identical query finds: every path from this thread's search
+    # to the return either stores the fresh record under the looked-up key or (not improved) hands back the old one
+    key = ctx.key(f, "C14-POLICY", "stored-after-search")
+    store_nodes = [n.id for n, t, val in stores if C.unparse(t.slice) == K and C.unparse(val) == CON]
+    keep_nodes = [n.id for n in cfg.nodes if n.kind == "stmt" and isinstance(n.ast, ast.Assign)
+                  and any(isinstance(t, ast.Name) and t.id == CON for t in n.ast.targets)
+                  and isinstance(n.ast.value, ast.Name)
+                  and any(C.unparse(v) == cache_k for v in ctx.r.local_assignments(f).get(n.ast.value.id, []))]
+    bad_path = None
+    for n, c in runs:
+        p_ = cfg.path_avoiding(n.id, store_nodes + keep_nodes)
+        if p_ is not None:
+            bad_path = p_
+    if bad_path is None:
+        r.ok(key, f.loc, "every path from the search to the return stores the fresh record or keeps the old one")
+    else:
+        r.violation(key, f.loc, "after a search a path reaches the return without the fresh record being stored under the "
+                    "looked-up key (and without falling back to the stored one): repeating the query searches again, or "
+                    "returns a different contraction order", path=cfg.describe_path(bad_path))
+    # update_from_tree: a missing entry is always written; an explicit overwrite always writes
+    key = ctx.key(u, "C14-POLICY", "update-writes")
+    flu = ctx.flow(u)
+    ustores = [flu.cfg.containing(n, u.module.parents).id for n in walk_local(u.node) if isinstance(n, ast.Assign)
+               and any(isinstance(t, ast.Subscript) and C.unparse(t.value) == "self._cache" for t in n.targets)]
+    probs = []
+    for tn in [x for x in flu.cfg.nodes if x.kind == "test" and isinstance(x.ast, ast.If)]:
+        tt = C.unparse(tn.ast.test)
+        true_succ = [sid for sid in flu.cfg.succ[tn.id] if flu.cfg.branch.get((tn.id, sid)) is True]
+        false_succ = [sid for sid in flu.cfg.succ[tn.id] if flu.cfg.branch.get((tn.id, sid)) is False]
+        if tt == Mu:
+            for s0 in true_succ:
+                if s0 not in ustores and flu.cfg.path_avoiding(s0, ustores) is not None:
+                    probs.append("a missing entry is not always written")
+        if tt == "overwrite == 'improved'":
+            for s0 in false_succ:      # plain truthy overwrite
+                if s0 not in ustores and flu.cfg.path_avoiding(s0, ustores) is not None:
+                    probs.append("overwrite=True does not always write")
+    if probs:
+        r.violation(key, u.loc, "; ".join(sorted(set(probs))))
+    else:
+        r.ok(key, u.loc, "missing entries and explicit overwrites are written on every path")
     return r
 
 
